@@ -3,12 +3,16 @@ package main
 import (
 	"go/ast"
 	"go/token"
+	"strings"
 )
 
 // C20 (Model/Logger.lean): capacity of rogger's log queue, shape of flushLog, mirrored functions.
 func init() {
 	const rel = "tars/util/rogger/logger.go"
 	mirrored[rel] = append(mirrored[rel], "flushLog", "FlushLogger", "Logger.Writef", "Logger.WriteLog")
+	const relW = "tars/util/rogger/logwriter.go"
+	mirrored[relW] = append(mirrored[relW], "RollFileWriter.Write", "reOpenFile", "NewRollFileWriter")
+	extras = append(extras, rollWriterAnchor)
 	extras = append(extras, func(add func(string, int64, bool)) {
 		f := parse(rel)
 		if f == nil {
@@ -66,4 +70,89 @@ func init() {
 			add("loggerFlushLogSelects", int64(selects), true)
 		}
 	})
+}
+
+// rollWriterAnchor (Model/LogWriter.lean): the rotation branch of RollFileWriter.Write
+// (`if w.currSize >= w.size { … }`) must, after the rename loop, make <name>.log current again:
+// a call of reOpenFile (or of anything whose name contains "open"), an assignment to w.currFile,
+// or a call that is handed &w.currFile. loggerRollReopenAfterRotate = 1 iff it does.
+func rollWriterAnchor(add func(string, int64, bool)) {
+	const rel = "tars/util/rogger/logwriter.go"
+	f := parse(rel)
+	if f == nil {
+		return
+	}
+	fd := f.funcDecl("RollFileWriter.Write")
+	if fd == nil || fd.Body == nil {
+		return
+	}
+	var branch *ast.IfStmt
+	ast.Inspect(fd.Body, func(n ast.Node) bool {
+		is, ok := n.(*ast.IfStmt)
+		if !ok || branch != nil {
+			return branch == nil
+		}
+		be, ok := is.Cond.(*ast.BinaryExpr)
+		if !ok {
+			return true
+		}
+		c := exprStr(f.fset, be)
+		if strings.Contains(c, "currSize") && strings.Contains(c, "size") &&
+			(be.Op == token.GEQ || be.Op == token.GTR || be.Op == token.LEQ || be.Op == token.LSS) {
+			// it is the rotation branch if it contains the rename loop
+			hasLoop := false
+			ast.Inspect(is.Body, func(m ast.Node) bool {
+				if _, ok := m.(*ast.ForStmt); ok {
+					hasLoop = true
+				}
+				return !hasLoop
+			})
+			if hasLoop {
+				branch = is
+				return false
+			}
+		}
+		return true
+	})
+	if branch == nil {
+		anchorLost("%s: RollFileWriter.Write: rotation branch `if w.currSize >= w.size { … for … }` not found", rel)
+		return
+	}
+	// statements after the (last) rename loop
+	last := -1
+	for i, st := range branch.Body.List {
+		if _, ok := st.(*ast.ForStmt); ok {
+			last = i
+		}
+	}
+	reopens := false
+	for _, st := range branch.Body.List[last+1:] {
+		ast.Inspect(st, func(n ast.Node) bool {
+			switch x := n.(type) {
+			case *ast.CallExpr:
+				if strings.Contains(strings.ToLower(exprStr(f.fset, x.Fun)), "open") {
+					reopens = true
+				}
+				for _, a := range x.Args {
+					if strings.HasSuffix(exprStr(f.fset, a), ".currFile") && strings.HasPrefix(exprStr(f.fset, a), "&") {
+						reopens = true
+					}
+				}
+			case *ast.AssignStmt:
+				for _, l := range x.Lhs {
+					if strings.HasSuffix(exprStr(f.fset, l), ".currFile") {
+						if len(x.Rhs) != 1 || exprStr(f.fset, x.Rhs[0]) != "nil" {
+							reopens = true
+						}
+					}
+				}
+			}
+			return true
+		})
+	}
+	v := int64(0)
+	if reopens {
+		v = 1
+	}
+	add("loggerRollReopenAfterRotate", v, true)
 }
